@@ -16,7 +16,9 @@ CONSTANTS Family,   \* "unary" | "return" | "arity2" | "arity3" | "cross"
 IntKinds == {"int", "int8", "int16", "int32", "int64", "uint", "uint8", "uint16", "uint32", "uint64"}
 FloatKinds == {"float32", "float64"}
 Kinds == IntKinds \cup FloatKinds \cup {"string", "bool"}
-Paths == {"func", "method", "generic"}
+\* func-named: a reflectively registered function whose parameter / result types are NAMED types over the
+\* kind (type Label string, type Level int8): the value must arrive in the named type, same rules
+Paths == {"func", "method", "generic", "func-named"}
 
 \* the integer chain, ascending
 IntChain == <<"i64.min", "i32.min-1", "i32.min", "i16.min-1", "i16.min", "i8.min-1", "i8.min", "-1", "0", "1", "i8.max", "i8.max+1",
